@@ -3,12 +3,12 @@
 # 1. demo passes on the clean worktree, fails with the patch; 2. the pinned test suite still passes with the patch;
 # 3. apply to /repo, run ./check, undo.  Prints a summary; stores nothing (the caller files the result under seeded/).
 ID=$1; K=$2; TIER=${3:-quick}
-WT=/tmp/wt/$ID; SD=/tmp/seed/$ID
+WT=${WT_BASE:-/tmp/wt}/$ID; SD=${SD_BASE:-/tmp/seed}/$ID
 P=$SD/patch$K.diff; D=$SD/demo$K.py
 git -C $WT checkout -q -- . || exit 9
-PYTHONPATH=$WT /venv/bin/python -W ignore $D >/tmp/seed/$ID/demo$K.clean.log 2>&1; echo "demo clean exit=$?"
+PYTHONPATH=$WT /venv/bin/python -W ignore $D >$SD/demo$K.clean.log 2>&1; echo "demo clean exit=$?"
 git -C $WT apply $P || { echo "patch does not apply"; exit 9; }
-PYTHONPATH=$WT /venv/bin/python -W ignore $D >/tmp/seed/$ID/demo$K.patched.log 2>&1; echo "demo patched exit=$?"
+PYTHONPATH=$WT /venv/bin/python -W ignore $D >$SD/demo$K.patched.log 2>&1; echo "demo patched exit=$?"
 if [ -z "$SKIP_TESTS" ]; then
   (cd $WT && PYTHONPATH=$WT /venv/bin/python -m pytest -q -p no:cacheprovider --timeout=900 -x --deselect tests/test_phase_predictor.py 2>&1 | tail -1)
   (cd $WT && PYTHONPATH=$WT /venv/bin/python -m pytest -q -p no:cacheprovider --timeout=900 tests/test_phase_predictor.py 2>&1 | tail -1)
